@@ -33,7 +33,20 @@ ASSUMPTIONS = [
 def check(case, stats):
     if case.get("kind", "history") == "history":
         return cachehist.check(case, stats, clauses=("accounting",), nontrivial="c09")
-    return check_program(case, stats)
+    if case["kind"] == "long":
+        st2 = core.Stats()
+        try:
+            cachehist.check(expand_long(case), st2, clauses=("accounting",), nontrivial="c09")
+        except Violation as v:
+            raise Violation(v.clause, case, v.detail)      # report the compact form (the history is derived from it)
+        stats.count(case, True, {"kind:long-history"}, sample_tag="long")
+        return
+    try:
+        return check_program(case, stats)
+    except ValueError as ex:
+        if "invalid literal for int" in str(ex):
+            raise Violation("counter-format", case, f"a reported counter is not a plain decimal number: {ex}")
+        raise
 
 
 def check_program(case, stats):
@@ -84,6 +97,34 @@ def check_program(case, stats):
     stats.count(case, h >= 1 and acc - h >= 1, tags, sample_tag="program")
 
 
+def long_cases():
+    """Deterministic long histories (>= 1000 counted accesses and >= 1000 hits): the counters are reported as plain numbers
+    of any magnitude, and nothing drifts over a long run."""
+    for g, cfg in enumerate(cachehist.TINY_GEOMETRIES[:6] + [{"idx": 2, "blk": 1, "ways": 4, "type": "wb", "repl": "plru", "pen": 1},
+                                                              {"idx": 1, "blk": 0, "ways": 4, "type": "wt", "repl": "lru", "pen": 2}]):
+        yield {"kind": "long", "cfg": cfg, "n": 2600, "g": g}
+    B = cachehist.B
+    for mode_dc in ({"idx": 1, "blk": 1, "ways": 2, "type": "wb", "repl": "lru", "pen": 1}, {"idx": 0, "blk": 0, "ways": 2, "type": "wt", "repl": "plru", "pen": 0}):
+        yield {"kind": "program", "max": 6000, "dcache": mode_dc, "regs": {"8": B}, "mem": {},
+               "prog": [["addi", 5, 0, 1100], ["lw", 6, 8, 0], ["sw", 8, 5, 8], ["addi", 5, 5, -1], ["bne", 5, 0, -12]]}
+
+
+def expand_long(case):
+    cfg = case["cfg"]
+    cap_words = (1 << cfg["idx"]) * cfg["ways"] * (1 << cfg["blk"])
+    span = 2 * cap_words + 3
+    ops = []
+    for i in range(case["n"]):
+        a = cachehist.B + 4 * ((i * 7 + i // 13) % span)
+        if i % 3 == 0:
+            ops.append(["w", 4, a, (i * 2654435761) & 0xFFFFFFFF])
+        elif i % 5 == 0:
+            ops.append(["r", 1, a + i % 4, True])
+        else:
+            ops.append(["r", 4, a, True])
+    return {"cfg": cfg, "pre": [], "ops": ops}
+
+
 def program_case():
     return st.builds(lambda c, d: dict(c, kind="program", dcache=d, max=250), rvprog.mem_heavy_case(18),
                      st.one_of(cachecfg.small_cache_config(), cachecfg.small_cache_config(), cachecfg.cache_config()))
@@ -118,6 +159,7 @@ def shards(tier, seed):
             items.append({"what": "tiny", "len": 6, "part": p, "parts": 32, "geos": [0, 2, 5, 7]})
         for i in range(16):
             items.append({"what": "program", "n": 700, "seed": seed * 1000 + 50 + i})
+    items.append({"what": "long"})
     for i in range(2 if tier == "quick" else 8):
         items.append({"what": "machine", "n": 60 if tier == "quick" else 800, "seed": seed * 1000 + 900 + i})
     return items
@@ -132,6 +174,8 @@ def run_shard(item, stats):
     if w == "history":
         core.hyp_search(cachehist.history_case(accepted_only=True, max_ops=item["ops"]).map(lambda c: dict(c, kind="history")),
                         check, stats, item["n"], item["seed"], km)
+    elif w == "long":
+        core.run_cases(long_cases(), check, stats, km)
     elif w == "tiny":
         geos = [cachehist.TINY_GEOMETRIES[g] for g in item.get("geos", range(8))]
         core.run_cases((dict(c, kind="history") for c in cachehist.tiny_cases(item["len"], item["part"], item["parts"], False, geos)),
